@@ -235,6 +235,7 @@ pub struct Sim {
     /// any woken caller is polled; by default a woken caller is polled as soon as it is seen.
     /// Both orders are legitimate schedules of a real runtime.
     pub spawned_first: bool,
+    frozen: Vec<u64>,
     settles: u64,
 }
 
@@ -254,6 +255,7 @@ impl Sim {
             fresh_wakers: std::env::var_os("VCHECK_SAME_WAKER").is_none(),
             spurious_polls: std::env::var_os("VCHECK_NO_SPURIOUS").is_none(),
             spawned_first: false,
+            frozen: vec![],
             settles: 0,
         }
     }
@@ -350,7 +352,7 @@ impl Sim {
             return None;
         }
         let live: Vec<usize> = (0..self.tasks.len())
-            .filter(|&i| self.tasks[i].state == TaskState::Live && self.tasks[i].polls > 0)
+            .filter(|&i| self.tasks[i].state == TaskState::Live && self.tasks[i].polls > 0 && !self.is_frozen(i))
             .collect();
         if live.is_empty() {
             return None;
@@ -362,12 +364,26 @@ impl Sim {
         self.log.len() + self.completed
     }
 
+    /// The task is not polled (whatever wakes it) before the virtual instant `until_ms`: a caller
+    /// whose own task is busy elsewhere while timers and other tasks go on.
+    pub fn freeze(&mut self, i: usize, until_ms: u64) {
+        if self.frozen.len() <= i {
+            self.frozen.resize(i + 1, 0);
+        }
+        self.frozen[i] = until_ms;
+    }
+
+    fn is_frozen(&self, i: usize) -> bool {
+        self.frozen.get(i).map_or(false, |&u| now() < u)
+    }
+
     fn woken(&self) -> Vec<usize> {
         let ep = self.epoch();
         (0..self.tasks.len())
             .filter(|&i| {
                 let s = &self.tasks[i];
                 s.state == TaskState::Live
+                    && !self.is_frozen(i)
                     && s.flag.0.load(Ordering::SeqCst)
                     && (s.spin < SPIN_CAP || s.spin_epoch != ep)
             })
